@@ -1778,6 +1778,16 @@ def p_each( ctx ):
     st = [ s for s in ast.walk( f ) if isinstance( s, ast.Assign ) and any( dotted( t ) == 'data.status' for t in s.targets ) ]
     if st:
         res.bad( src, st[0], st[0], 'a member must not alter the bundle\'s own status inside the loop' )
+    # one member cannot take its neighbours with it: whatever escapes from a member's request() ( RequestUnrecognized for a service the target
+    # does not support is raised OUTSIDE Object.request's own status-converting try ) is caught per member, inside the loop
+    for c in calls:
+        trs = [ a_ for a_ in src.ancestors( c.stmt ) if isinstance( a_, ast.Try ) and any( c.stmt is x_ for b_ in a_.body for x_ in ast.walk( b_ )) and any( a_ is x_ for x_ in ast.walk( f ))
+                and any( h_.type is None or dotted( h_.type ) in ( 'Exception', 'BaseException' ) for h_ in a_.handlers ) ]
+        if trs:
+            res.ok( src, c.stmt, 'an exception escaping from one member is handled inside the member loop' )
+        else:
+            res.bad( src, c.stmt, 'Message_Router.request: the dispatch of a member ( <target>.request( <member> )) is not protected inside the member loop',
+                     'a member whose service the target does not support raises RequestUnrecognized out of the loop: the whole bundle is answered with status 0x08 and NO member replies, although the members ahead of it were executed, and the members behind it never run - the same requests sent individually are all answered' )
     return res
 
 
@@ -1829,6 +1839,17 @@ def p_closure( ctx ):
     anodes = [ n for n in ccfg.nodes if n.kind == 'stmt' and any( n.stmt is a for a in asserts ) ]
     if not appends:
         raise AnalysisError( 'state_multiple_service.terminate.closure: the append of a parsed member to the request list not found' )
+    # ... and a member that fails to parse is ACCOUNTED FOR: the failure is handled per member inside the closure ( the post-processing step
+    # that runs the closure merely logs what escapes from it, so an escaping failure silently ends the list at the members parsed so far )
+    mloops = [ l_ for l_ in walk_no_nested( cl ) if isinstance( l_, ast.For ) and any( a_ is x_ for a_ in asserts for x_ in ast.walk( l_ )) ]
+    for a_ in asserts:
+        trs = [ t_ for t_ in src.ancestors( a_ ) if isinstance( t_, ast.Try ) and any( a_ is x_ for b_ in t_.body for x_ in ast.walk( b_ )) and any( t_ is x_ for l_ in mloops for x_ in ast.walk( l_ ))
+                and any( h_.type is None or dotted( h_.type ) in ( 'Exception', 'BaseException', 'AssertionError' ) for h_ in t_.handlers ) ]
+        if trs:
+            res.ok( src, a_, 'a member that fails to parse is handled inside the member loop of the closure' )
+        else:
+            res.bad( src, a_, 'closure: a member that fails to parse ends the closure ( the terminal assertion escapes from the member loop )',
+                     'the exception is only logged by the post-processing step: the bundle is answered with status 0 and FEWER member replies than requests; the members behind the unparseable one are never executed - one failing member affects its neighbours and the framing of the reply' )
     for ap in appends:
         if anodes and ccfg.must_pass( ccfg.entry, ap, anodes, correlated=False ):
             res.ok( src, ap.stmt, 'a member is appended to the requests to execute only after its parse was asserted terminal' )
